@@ -7,15 +7,17 @@
                     orders are put BEFORE the remaining results are collected, results are sorted by index at the end
    The function applied to the items is uninterpreted (a result chunk is represented by the chunk).  A non-blocking get may
    report Empty although an item is on its way (multiprocessing.Queue hands items to a feeder thread): MEmpty is enabled
-   in every state of the drain loop. *)
+   in every state of the drain loop.  A worker process that has left its loop (took its stop order) can only exit - and so
+   be joined - when the feeder thread of its results queue has flushed what it put: the pipe behind the queue is bounded,
+   so not while more than m_pipe results are waiting to be read (m_pipe = None: no bound). *)
 From Coq Require Import ZArith List Bool Arith.
 From WPU Require Import Common.Val Model.Pool.
 Import ListNotations.
 Open Scope nat_scope.
 
-Record mcfg := mkMCfg { m_workers : nat; m_cap : option nat; m_kind : bool }.
+Record mcfg := mkMCfg { m_workers : nat; m_cap : option nat; m_kind : bool; m_pipe : option nat }.
 
-Inductive mwpc := MWNew | MWIdle | MWHold (i : nat) (xs : list Z) | MWDead.
+Inductive mwpc := MWNew | MWIdle | MWHold (i : nat) (xs : list Z) | MWExiting | MWDead.    (* MWExiting: run() returned; MWDead: the process has exited *)
 
 Inductive mmpc :=
 | MmEnter (k : nat)
@@ -46,7 +48,7 @@ Definition minit (cfg : mcfg) (hist : list (list Z * nat)) : mstate :=
 
 Inductive mevent :=
 | MStart | MNext | MPut | MTry | MEmpty | MGet | MEnd | MNone | MJoin
-| MWTake (k : nat) | MWRes (k : nat).
+| MWTake (k : nat) | MWRes (k : nat) | MWExit (k : nat).
 
 (* stable insertion sort of (index, chunk) pairs by index: sorted(res, key=lambda x: x[0]) *)
 Fixpoint ins_by_idx (e : nat * list Z) (l : list (nat * list Z)) : list (nat * list Z) :=
@@ -83,7 +85,9 @@ Definition after_loop (cfg : mcfg) : mmpc := if m_kind cfg then MmFinal else MmN
 Definition begin_call (cfg : mcfg) (s : mstate) (d : list Z) (c : nat) (rest : list (list Z * nat)) (ps : list mwpc) (m : mmpc) : mstate :=
   mkMS rest m c d 0 0 [] 0 [] (ms_done s) (ms_err s) (ms_workq s) (ms_resq s) ps.
 Definition first_pc (cfg : mcfg) (d : list Z) : mmpc := match d with [] => after_loop cfg | _ => MmPut 0 d end.
-Definition mdead (w : mwpc) : bool := match w with MWDead => true | _ => false end.
+Definition mdead (w : mwpc) : bool := match w with MWExiting | MWDead => true | _ => false end.    (* left its loop *)
+Definition mgone (w : mwpc) : bool := match w with MWDead => true | _ => false end.
+Definition pipe_room (cfg : mcfg) (s : mstate) : bool := match m_pipe cfg with None => true | Some p => length (ms_resq s) <=? p end.
 
 Definition mstep (cfg : mcfg) (s : mstate) (e : mevent) : option mstate :=
   match e with
@@ -169,12 +173,17 @@ Definition mstep (cfg : mcfg) (s : mstate) (e : mevent) : option mstate :=
   | MWTake k =>
       match nth_error (ms_procs s) k, ms_workq s with
       | Some MWIdle, QChunk i xs :: q => Some (set_procs (set_workq s q) (set_nth k (MWHold i xs) (ms_procs s)))
-      | Some MWIdle, QNone :: q => Some (set_procs (set_workq s q) (set_nth k MWDead (ms_procs s)))
+      | Some MWIdle, QNone :: q => Some (set_procs (set_workq s q) (set_nth k MWExiting (ms_procs s)))
       | _, _ => None
       end
   | MWRes k =>
       match nth_error (ms_procs s) k with
       | Some (MWHold i xs) => Some (set_procs (set_resq s (ms_resq s ++ [QChunk i xs])) (set_nth k MWIdle (ms_procs s)))
+      | _ => None
+      end
+  | MWExit k =>
+      match nth_error (ms_procs s) k with
+      | Some MWExiting => if pipe_room cfg s then Some (set_procs s (set_nth k MWDead (ms_procs s))) else None
       | _ => None
       end
   end.
@@ -192,21 +201,21 @@ Fixpoint maccept (cfg : mcfg) (s : mstate) (evs : list mevent) (n : nat) : nat *
 Definition dec_mevent (v : val) : mevent :=
   match unL v with
   | [I 0] => MStart | [I 1] => MNext | [I 2] => MPut | [I 3] => MTry | [I 4] => MEmpty | [I 5] => MGet | [I 6] => MEnd
-  | [I 7] => MNone | [I 8] => MJoin | [I 9; k] => MWTake (unN k) | [I 10; k] => MWRes (unN k) | _ => MEnd
+  | [I 7] => MNone | [I 8] => MJoin | [I 9; k] => MWTake (unN k) | [I 10; k] => MWRes (unN k) | [I 11; k] => MWExit (unN k) | _ => MEnd
   end%Z.
 Definition mmpc_code (m : mmpc) : Z :=
   match m with MmEnter _ => 0 | MmIdle => 1 | MmPut _ _ => 2 | MmDrain _ _ => 3 | MmNones _ => 4 | MmFinal => 5 | MmJoin _ => 6 | MmDone => 7 end%Z.
-(* [[workers, cap?, kind], [[data, chunk] ...], events] -> [accepted, done calls, error, main pc, |workq|, |resq|, all dead] *)
+(* [[workers, cap?, kind, pipe?], [[data, chunk] ...], events] -> [accepted, done calls, error, main pc, |workq|, |resq|, all exited] *)
 Definition run_fmap (v : val) : val :=
   match unL v with
   | [c; h; evs] =>
       match unL c with
-      | [nw; cap; kd] =>
-          let cfg := mkMCfg (unN nw) (dec_optnat cap) (unB kd) in
+      | [nw; cap; kd; pp] =>
+          let cfg := mkMCfg (unN nw) (dec_optnat cap) (unB kd) (dec_optnat pp) in
           let hist := map (fun x => match unL x with [d; ch] => (unZs d, unN ch) | _ => ([], 1) end) (unL h) in
           let '(n, s) := maccept cfg (minit cfg hist) (map dec_mevent (unL evs)) O in
           L [vN n; L (map vZs (ms_done s)); vB (ms_err s); I (mmpc_code (ms_main s)); vN (length (ms_workq s));
-             vN (length (ms_resq s)); vB (forallb mdead (ms_procs s))]
+             vN (length (ms_resq s)); vB (forallb mgone (ms_procs s))]
       | _ => L []
       end
   | _ => L []
